@@ -1,6 +1,7 @@
 package e1
 
 import (
+	"strings"
 	"fmt"
 	"time"
 
@@ -258,13 +259,41 @@ func genZSetCmd(g *lsGen) {
 	switch r.Intn(16) {
 	case 0, 1, 2, 3, 4, 5:
 		a := bs("zadd", k)
-		if r.Bool(0.45) {
+		hasIncr := false
+		if r.Bool(0.25) {
 			for _, o := range pick(r, [][]string{{"nx"}, {"xx"}, {"gt"}, {"lt"}, {"ch"}, {"xx", "ch"}, {"incr"}, {"xx", "incr"}, {"NX"}, {"CH"}, {"gt", "ch"}, {"lt", "xx"}, {"nx", "xx"}, {"gt", "lt"}}) {
+				a = append(a, B(o))
+				hasIncr = hasIncr || o == "incr"
+			}
+		} else if r.Bool(0.4) {
+			// any combination of the four option groups, in any order and letter case
+			var os []string
+			if r.Bool(0.35) {
+				os = append(os, pick(r, []string{"nx", "xx", "xx"}))
+			}
+			if r.Bool(0.5) {
+				os = append(os, pick(r, []string{"gt", "lt"}))
+			}
+			if r.Bool(0.3) {
+				os = append(os, "ch")
+			}
+			if r.Bool(0.5) {
+				os = append(os, "incr")
+				hasIncr = true
+			}
+			for i := len(os) - 1; i > 0; i-- {
+				j := r.Intn(i + 1)
+				os[i], os[j] = os[j], os[i]
+			}
+			for _, o := range os {
+				if r.Bool(0.2) {
+					o = strings.ToUpper(o)
+				}
 				a = append(a, B(o))
 			}
 		}
 		n := 1 + r.Intn(3)
-		if r.Bool(0.3) {
+		if r.Bool(0.3) || (hasIncr && r.Bool(0.9)) {
 			n = 1
 		}
 		for i := 0; i < n; i++ {
